@@ -243,6 +243,10 @@ def toldCheck (j : JState) : Option String :=
         | none => false
       if onlyChecks && o == .none then none
       else if committedAt == c.toNat? && committedAt.isSome then none
+      -- profile full: a retried prewrite that finds the transaction already committed (its one-phase / async answer was
+      -- lost) is answered success; the client then goes through an ordinary commit with a fresh commit ts, which the
+      -- store acknowledges idempotently.  The transaction IS committed (at the earlier ts): C03 asks no more of `nil`.
+      else if j.full.isSome && committedAt.isSome && (match o with | .committed _ => true | _ => false) then none
       else if asyncTxn && (match c.toNat? with | some n => asyncCommittedAt j.store st n | none => false) then none
       else some s!"C03 Commit of {st} answered success at {c} but the store shows {repr o}"
     | ["undetermined"] =>
